@@ -131,9 +131,10 @@ fn main() {
             if r.class == "hang" {
                 // The violation is "never finishes": a watchdog thread decides.
                 let (prop, path) = (r.property.clone(), path.clone());
+                let secs = if r.scenario == "pool-wrap" { 120 } else { 10 };
                 std::thread::spawn(move || {
-                    std::thread::sleep(std::time::Duration::from_secs(10));
-                    println!("still running after 10 s");
+                    std::thread::sleep(std::time::Duration::from_secs(secs));
+                    println!("still running after {secs} s");
                     println!("VIOLATION property={prop} replay={path}");
                     std::process::exit(1);
                 });
